@@ -53,7 +53,10 @@ CLAIMED = {
              ref="§7 C14", technique="Lean 4 proof (scan invariants, decide +kernel on the regenerated phred table) + bit-exact model/implementation correspondence"),
 }
 EXTRA_TEXT = {
- "C03": " Added: the adapter index is part of the pipeline model (Matchable.indexed, Regroup.lean); indexed_pipeline_marked_slice states the slice property for the default, index-using "
+ "C13": " Added: translator gen_qualwiring (interval kept by -q/-Q/--nextseq-trim on probe reads under both quality encodings) with generated_quality_wiring.",
+ "C15": " Added: translator gen_demux (files created and routing of probe reads, {name} and {name1}/{name2}, duplicate names, one sequence under two names) with generated_demux_files_and_routing, generated_comb_files_and_routing.",
+ "C09": " Added: default_pipeline_without_index (without two indexable anchored adapters of one kind the default assembly is the --no-index assembly); the rule oracle is applied in the default mode whenever no index can be built.",
+ "C03": " Added: translator gen_actions (every --action on probe reads) with generated_actions_documented. Added: the adapter index is part of the pipeline model (Matchable.indexed, Regroup.lean); indexed_pipeline_marked_slice states the slice property for the default, index-using "
         "pipeline; half of the correspondence runs use the index.",
  "C08": " Added: _split_adapters / _regroup_into_indexed_adapters modelled (Regroup.lean): regroup_noop, regroup_entries, regroup_wf, split_positions_perm, regroup_origin_perm "
         "(regrouping refers to every given adapter exactly once); the index object is a constructor of the pipeline's Matchable, so pipeline-level correspondence runs in index mode. regroup_names / regroup_every_adapter_named: the name table after regrouping carries, row by row, the names of the given adapters; function-level correspondence of _regroup_into_indexed_adapters (driver op regroup).",
